@@ -11,16 +11,16 @@
 EXTENDS Dung, TLC, Json, IOUtils, SequencesExt, FiniteSetsExt
 Rec == ndJsonDeserialize(IOEnv.TRACE)
 Labels == 1..64
-VARIABLES l, m, fams, tainted, sem, certsem
+VARIABLES l, m, fams, tainted, sem, certsem, wide
 St == INSTANCE Store WITH s <- m
-vars == <<l, m, fams, tainted, sem, certsem>>
+vars == <<l, m, fams, tainted, sem, certsem, wide>>
 
 Report(name, ok) == IF ok THEN TRUE ELSE PrintT(<<"T1", l, name>>)
 P == IF tainted THEN "C09" ELSE "C08"
 FamsOf(x, s1, s2) == LET a == St!AsAF(x) IN [s \in {s1, s2} |-> FamFast(a, s)]
 OpOf(e) == [op |-> e.o.op, a |-> e.o.a, b |-> e.o.b]
 
-Init == l = 1 /\ m = St!InitS /\ fams = <<>> /\ tainted = FALSE /\ sem = "CO" /\ certsem = "CO"
+Init == l = 1 /\ m = St!InitS /\ fams = <<>> /\ tainted = FALSE /\ sem = "CO" /\ certsem = "CO" /\ wide = FALSE
 
 JudgeQ(e) ==
   LET cred == e.kind = "DC"
@@ -48,19 +48,21 @@ Next ==
   /\ l' = l + 1
   /\ LET e == Rec[l] IN
      CASE e.ev = "reset" ->
-            /\ m' = St!InitS /\ tainted' = FALSE /\ sem' = e.sem /\ certsem' = e.certsem_dc
+            /\ m' = St!InitS /\ tainted' = FALSE /\ sem' = e.sem /\ certsem' = e.certsem_dc /\ wide' = e.wide
             /\ fams' = FamsOf(St!InitS, e.sem, e.certsem_dc)
        [] e.ev = "u" ->
             LET r == St!Step(m, OpOf(e)) IN
-            /\ m' = r.st /\ UNCHANGED <<sem, certsem>>
-            /\ fams' = IF r.st = m THEN fams ELSE FamsOf(r.st, sem, certsem)
+            /\ m' = r.st /\ UNCHANGED <<sem, certsem, wide>>
+            \* wide histories (18+ labels): only the update results are judged, the families are out of reach
+            /\ fams' = IF r.st = m \/ wide THEN fams ELSE FamsOf(r.st, sem, certsem)
             /\ IF r.res = "err"
                THEN Report("C09:invalid_rejected", e.res = "err") /\ tainted' = TRUE
                ELSE IF r.st = m
                     THEN Report("C09:redundant_noop", e.res = "ok") /\ tainted' = TRUE
                     ELSE Report(P \o ":update_accepted", e.res = "ok") /\ tainted' = tainted
-       [] e.ev = "q" -> JudgeQ(e) /\ UNCHANGED <<m, fams, tainted, sem, certsem>>
-       [] OTHER -> UNCHANGED <<m, fams, tainted, sem, certsem>>
+       [] e.ev = "q" -> JudgeQ(e) /\ UNCHANGED <<m, fams, tainted, sem, certsem, wide>>
+       [] e.ev = "usable" -> Report(P \o ":stays_usable", e.panic = "") /\ UNCHANGED <<m, fams, tainted, sem, certsem, wide>>
+       [] OTHER -> UNCHANGED <<m, fams, tainted, sem, certsem, wide>>
 
 Spec == Init /\ [][Next]_vars
 Consumed == TLCGet("stats").diameter - 1 = Len(Rec) \/ PrintT(<<"UNCONSUMED", TLCGet("stats").diameter, Len(Rec)>>)
